@@ -332,6 +332,11 @@ func schedSuite(suite string, kinds []string, quickN, thoroughN int) suiteFunc {
 				joinWindowCase(rng, w, suite)
 			}
 		}
+		if suite == "schedC03" {
+			for i := 0; i < 8; i++ {
+				sharedKeyCopiesCase(rng, w, suite)
+			}
+		}
 		if suite == "schedC06" {
 			for i := 0; i < 4; i++ {
 				sharedAddrQueueCase(rng, w, suite)
@@ -613,6 +618,108 @@ func window2Case(rng *rand.Rand, w *Writer, suite string) {
 	w.Case(suite, []string{fmt.Sprintf("cfg=%d:0", opts.netID), fmt.Sprintf("apps=%x", uint64(a.ToInt64())), "pop=" + strings.Join(pops, ";"),
 		"pre=" + strings.Join(pre, "|"), "f1=" + e1, "f2=" + e2, "kind=window2", "sched="}, "D["+strings.Join(dl, ";")+"] P[] "+h.dumpAll())
 	w.Count("sched.window2")
+}
+
+// Two registry entries with the same DevAddr AND the same session keys (strict counters): on the air they are one device, and
+// one uplink is reported twice at the same instant (the same report delivered twice, so that whichever handler wins the
+// outcome is the same): the frame is recorded once for each entry, not twice.
+func sharedKeyCopiesCase(rng *rand.Rand, w *Writer, suite string) {
+	opts := worldOpts{netID: uint(rng.Intn(1 << 24)), rxDelay: 400 * time.Millisecond}
+	world := newWorld(opts)
+	defer world.close()
+	h := &histRunner{w: world, rng: rng, tags: w.Stats, lastValid: map[int][]byte{}}
+	h.gws = []uint64{genEUI(rng), genEUI(rng)}
+	a := eui64(genEUI(rng))
+	h.apps = []protocol.EUI{a}
+	world.store.CreateApplication(model.Application{AppEUI: a})
+	world.watchApp(a)
+	addr := rng.Uint32()
+	var pops []string
+	for i := 0; i < 2; i++ {
+		d := &simDev{eui: eui64(genEUI(rng)), appeui: a, appkey: genKey(rng), relaxed: false}
+		d.nwk, d.app = randBytes(rng, 16), randBytes(rng, 16)
+		if i > 0 {
+			d.nwk, d.app = h.devs[0].nwk, h.devs[0].app
+		}
+		d.relaxed = false
+		d.addr = addr
+		d.joined = true
+		d.fup0 = []uint16{0, 1, 100}[rng.Intn(3)]
+		if i > 0 {
+			d.fup0 = h.devs[0].fup0
+		}
+		d.fdn0 = []uint16{0, 7}[rng.Intn(2)]
+		d.fcnt = d.fup0
+		world.store.CreateDevice(mkDevice(d.eui, d.appeui, d.addr, d.appkey, d.nwk, d.app, d.fup0, d.fdn0, d.relaxed, model.PersonalizedDevice), d.appeui)
+		d.registered = true
+		h.devs = append(h.devs, d)
+		pops = append(pops, fmt.Sprintf("%x:%x:%s:%s:%s:%x:%d:%d:%d:%d", uint64(d.eui.ToInt64()), d.addr, hx(d.appkey), hx(d.nwk), hx(d.app),
+			uint64(d.appeui.ToInt64()), d.fup0, d.fdn0, b01(d.relaxed), int(model.PersonalizedDevice)))
+	}
+	if rng.Intn(2) == 0 {
+		h.submit(h.devs[rng.Intn(2)], uint8(1+rng.Intn(200)), false, randBytes(rng, 1+rng.Intn(20)))
+	}
+	pre := append([]string{}, h.events...)
+	f1 := h.validUplink(h.devs[0], true, false, h.devs[0].fcnt, 1+rng.Intn(200), randBytes(rng, rng.Intn(20)), nil)
+	f2 := f1
+	// half of the cases: the two frames are received at the same instant (two gateways reporting at once), so that both
+	// answers fall due together and reach the encoder back to back
+	sameInstant := true
+	t0 := time.Now()
+	mk := func(raw []byte, gw uint64) (server.GatewayPacket, string) {
+		datr := datrs[rng.Intn(len(datrs))]
+		rssi := int32(-rng.Intn(130))
+		snr8 := rng.Intn(281) - 160
+		ch := uint8(rng.Intn(8))
+		clock := rng.Uint32()
+		now := time.Now()
+		if sameInstant {
+			now = t0
+		}
+		ts := now.UnixNano() - 1600000000000000000
+		return server.GatewayPacket{
+			RawMessage: append([]byte{}, raw...),
+			Radio:      server.RadioContext{Channel: ch, RFChain: 0, Frequency: 868.1, DataRate: datr, Band: eu868, RSSI: rssi, SNR: float32(snr8) / 8},
+			Gateway:    server.GatewayContext{GatewayEUI: eui64(gw), GatewayHost: "127.0.0.1", GatewayPort: 1700, GatewayClock: clock, ProtocolVersion: 2},
+			ReceivedAt: now,
+		}, fmt.Sprintf("R,%s,%x,%d,%s,%d/%d,%d,%d,,0", hx(raw), gw, ts, datr, rssi, snr8, ch, clock)
+	}
+	p1, e1 := mk(f1, h.gws[0])
+	p2, e2 := p1, e1
+	_ = f2
+	// forced order, operation by operation: one handler reads the rows, the other runs to its end, the first goes on with
+	// what it read. The two reports differ in their receive time only (the inbox is keyed by device and time, so that a
+	// second record would show); the model handles the winner's report first.
+	p2.ReceivedAt = p1.ReceivedAt.Add(time.Millisecond)
+	e2 = strings.Replace(e1, fmt.Sprintf(",%d,", p1.ReceivedAt.UnixNano()-1600000000000000000), fmt.Sprintf(",%d,", p2.ReceivedAt.UnixNano()-1600000000000000000), 1)
+	sched := []int{1}
+	for k := 0; k < 80; k++ {
+		sched = append(sched, 0)
+	}
+	if rng.Intn(2) == 0 {
+		sched = []int{0}
+		for k := 0; k < 80; k++ {
+			sched = append(sched, 1)
+		}
+		e1, e2 = e2, e1
+	}
+	if _, status := world.runSchedN([]server.GatewayPacket{p1, p2}, sched); status == "HUNG" {
+		w.Case(suite, []string{"kind=window2", "pop=" + strings.Join(pops, ";")}, "HUNG")
+		return
+	}
+	if !world.quiesce() {
+		w.Case(suite, []string{"kind=window2", "pop=" + strings.Join(pops, ";")}, "HUNG")
+		return
+	}
+	downs, _, _ := world.collect()
+	var dl []string
+	for _, x := range downs {
+		dl = append(dl, dlStr(x))
+	}
+	sort.Strings(dl)
+	w.Case(suite, []string{fmt.Sprintf("cfg=%d:0", opts.netID), fmt.Sprintf("apps=%x", uint64(a.ToInt64())), "pop=" + strings.Join(pops, ";"),
+		"pre=" + strings.Join(pre, "|"), "f1=" + e1, "f2=" + e2, "sharedkey=1", "kind=window2", "sched="}, "D["+strings.Join(dl, ";")+"] P[] "+h.dumpAll())
+	w.Count("sched.window2.shared-key-copies")
 }
 
 // Two devices that share a DevAddr, the second with TWO queued messages: both send an uplink inside one receive window, and
